@@ -157,7 +157,7 @@ type c07Call struct {
 	Twin   bool
 	Passed int // -1 = nil pointer
 	T      c07Task
-	Stop   string         // "none" | "af" | "ids:…"
+	Stop   string            // "none" | "af" | "ids:…"
 	Apps   map[int][]c07Task // appended between Iterate and Filter, per queue
 	AppOrd []int
 }
@@ -254,8 +254,8 @@ func (w *c07World) combine(call c07Call, real task.Task) (string, string) {
 // ---------------------------------------------------------------- one case
 
 type c07Layout struct {
-	Tasks  []c07Task       // every task (queued or not)
-	Queues map[int][]int   // queue number → task ids in order
+	Tasks  []c07Task     // every task (queued or not)
+	Queues map[int][]int // queue number → task ids in order
 	QOrd   []int
 }
 
@@ -554,7 +554,7 @@ func c07Exhaustive(c *Case, k int) {
 }
 
 func runC07(r *Run) {
-	r.Rule = "queue layouts of 1..10 tasks in the task's queue (+0..2 in a second queue) over 3 hooks x 3 task types x metadata-less tasks x contexts (0..3 per task, unique binding names, groups {\"\",g1,g2} interleaved) x monitor ids x allowFailure; the real combineBindingContextForHook (via verif_export_c07.go) or its exported twin is called for the head task (78%), a task in the middle, with a nil queue, with a task naming another / an absent queue; stop predicate nil / allowFailure-differs / id set; in 55% of the calls 1..3 tasks are appended to the queues by a second goroutine while the combiner is parked between Iterate and Filter; 35% of the cases run a second call after the task's metadata was updated with the first result. Oracle lines (head-of-own-queue calls): returned contexts = Spec.compact of the concatenation in queue order, monitor ids, every queue of the set afterwards. Non-trivial: >= 2 tasks in the queue; distinct = distinct op-line sequences. Thorough adds every layout of a head (3 groups) with <= 4 followers over 6 follower kinds, with and without a concurrent append."
+	r.Rule = "queue layouts of 1..10 tasks in the task's queue (+0..2 in a second queue) over 3 hooks x 3 task types x metadata-less tasks x contexts (0..3 per task, unique binding names, groups {\"\",g1,g2} interleaved) x monitor ids x allowFailure; the real combineBindingContextForHook (via verif_export_c07.go) or its exported twin is called for the head task (78%), a task in the middle, with a nil queue, with a task naming another / an absent queue; stop predicate nil / allowFailure-differs / id set; in 55% of the calls 1..3 tasks are appended to the queues by a second goroutine while the combiner is parked between Iterate and Filter; 35% of the cases run a second call after the task's metadata was updated with the first result. Oracle lines (head-of-own-queue calls): returned contexts = Spec.compact of the concatenation in queue order, monitor ids, every queue of the set afterwards. Non-trivial: >= 2 tasks in the queue; distinct = distinct op-line sequences. Plus whole-operator startups (real taskHandleHookRun with generated hooks: grouped/ungrouped Synchronization tasks; oracle: an ungrouped Synchronization runs with its own contexts and the queue is left alone). Thorough adds every layout of a head (3 groups) with <= 4 followers over 6 follower kinds, with and without a concurrent append."
 	// corpus
 	r.One(0, func(c *Case, _ *Rng) {
 		c.Desc = "corpus: interleaved groups, monitor ids, a foreign hook in the middle, concurrent append"
@@ -586,6 +586,35 @@ func runC07(r *Run) {
 		c07Run(c, l, []c07Call{{Twin: true, Passed: 1, T: l.Tasks[0], Stop: "none", Apps: map[int][]c07Task{}}}, false)
 	})
 	r.Cases(10, r.N(4000, 40000), 0, c07Random)
+	// C07.6 on the real operator (taskHandleHookRun's combine decision): startup with grouped and
+	// ungrouped Synchronization tasks; the lines are those of the C04 suite, answered by the same model
+	r.CaseTimeout = 120 * time.Second
+	r.One(2, func(c *Case, _ *Rng) {
+		c.Desc = "operator: onStartup + grouped/ungrouped Synchronization tasks (mixed allowFailure, executeHookOnSynchronization:false), then kubernetes events"
+		c.Nontrivial = true
+		c.Op("mode operator", "ok")
+		c04SyncWitness(c, r)
+	})
+	r.Cases(500000, r.N(16, 100), 0, func(c *Case, rng *Rng) {
+		hooks := c04GenHooks(rng, rng.Range(1, 2), true)
+		for i := range hooks {
+			if len(hooks[i].KBindings) == 0 {
+				hooks[i].KBindings = []c04KBinding{{Name: fmt.Sprintf("kx%d", i), EOS: true}, {Name: fmt.Sprintf("ky%d", i), EOS: true, Group: rng.Intn(2)}}
+			}
+		}
+		p := c04Plan{hooks: hooks, boInit: 15 * time.Millisecond, boStep: 5 * time.Millisecond, initial: map[int][]c04Ev{}, maxSteps: 60}
+		p.outcome = func(id, failed int) string {
+			if failed < 1 && rng.Chance(25) {
+				return "exit"
+			}
+			return "ok"
+		}
+		c.Desc = "operator: startup with Synchronization tasks of generated kubernetes bindings"
+		c.Nontrivial = true
+		c.Note("case:operator-startup")
+		c.Op("mode operator", "ok")
+		c04Execute(c, r, p)
+	})
 	if r.Thorough() {
 		total := 0
 		for nf, p := 0, 1; nf <= 4; nf++ {
